@@ -458,3 +458,5 @@ def run(report, repo):
   from sa.rules import c12  # pylint: disable=g-import-not-at-top
   report.guard(c12.r1_run, report, repo, rule='C04-R10')
   report.guard(c12.r2_kill, report, repo, rule='C04-R10')
+  from sa.rules import extra4  # pylint: disable=g-import-not-at-top
+  report.guard(extra4.stop_wait_is_constant, report, repo, 'C04-R11')
